@@ -17,7 +17,7 @@ RULE = ("all 30 keys (enumerated): signature number, signature accidentals, note
         "with an emptied memo table and again with a filled one (get_notes additionally after all 30 keys were cached). "
         "Non-trivial: a key whose signature has >= 1 accidental; a signature number other than 0; an invalid string that "
         "differs from a valid key by one character (or by case only)."
-        ' Also: get_notes(B) after a cold get_notes(A) for all 870 ordered key pairs and random orders of 3-8 keys; a coverage-guided atheris campaign over key-like text.')
+        ' Also: get_notes(B) after a cold get_notes(A) for all 870 ordered key pairs and random orders of 3-8 keys; a coverage-guided atheris campaign over key-like text. The empty string is offered to Key() like every other candidate key.')
 ASSUMPTIONS = [
     "oracle: own key table (signature number -> major/minor tonic), circle of fifths FCGDAEB and step patterns in "
     "vlib/ref/theory.py; own key note lists spelled from the step pattern",
